@@ -685,30 +685,157 @@ def _fl_fits(k, q):
     from fractions import Fraction
     return Fraction(x) == q
 
-def _inexact_float_range(slots):
-    """a range over floats / doubles among the scanned slots whose values start + i * step (and the
+def _inexact_at(slots, j):
+    """is slots[j] the header of a range over floats / doubles whose values start + i * step (and the
     product i * step) are not all values of the format, or whose left neighbour a (same type, directly in
     front) has a + step != start: the arithmetic the printer and the scanner do on it rounds"""
-    for j, t in enumerate(slots):
-        m = re.match(r"R:(-?\d+):1$", t)
-        if not m or j + 2 >= len(slots) or slots[j + 1][:2] not in ("f:", "d:") or slots[j + 2][:2] != slots[j + 1][:2]:
-            continue
-        k = slots[j + 1][0]
+    m = re.match(r"R:(-?\d+):1$", slots[j])
+    if not m or j + 2 >= len(slots) or slots[j + 1][:2] not in ("f:", "d:") or slots[j + 2][:2] != slots[j + 1][:2]:
+        return False
+    k = slots[j + 1][0]
+    try:
         dl, st = _fl_val(slots[j + 1]), _fl_val(slots[j + 2])
-        n = int(m.group(1))
-        for i in range(1, max(n, 3)):
-            if not _fl_fits(k, i * dl) or not _fl_fits(k, st + i * dl):
-                return True
-        if j > 0 and slots[j - 1][:2] == k + ":" and _fl_val(slots[j - 1]) + dl != st:
+    except (ValueError, OverflowError):
+        return False
+    n = int(m.group(1))
+    for i in range(1, max(n, 3)):
+        if not _fl_fits(k, i * dl) or not _fl_fits(k, st + i * dl):
             return True
+    if j > 0 and slots[j - 1][:2] == k + ":":
+        try:
+            if _fl_val(slots[j - 1]) + dl != st:
+                return True
+        except (ValueError, OverflowError):
+            return False
     return False
+
+def _inexact_float_range(slots):
+    return any(_inexact_at(slots, j) for j in range(len(slots)))
+
+def _ulp(k, q):
+    """one unit in the last place of the format k at the magnitude of the rational q"""
+    from fractions import Fraction
+    import math
+    q = abs(q)
+    p, emin = (24, -126) if k == "f" else (53, -1022)
+    if q == 0:
+        return Fraction(2) ** (emin - p + 1)
+    e = max(math.floor(math.log2(float(q))) if float(q) > 0 else emin, emin)
+    return Fraction(2) ** (e - p + 1)
+
+def _fl_round(k, q):
+    from fractions import Fraction
+    x = float(q)
+    if k == "f":
+        x = struct.unpack("<f", struct.pack("<f", x))[0]
+    return Fraction(x)
+
+def _written_out(slots):
+    """the slots written out element by element: [(text, mark)] - mark is None for a plain slot, else
+    (type, largest magnitude) for an element of an inexact float range (elements computed as the library
+    does: start + i * step, each operation rounded).  Array headers are kept without their length (the
+    compression inside differs between two scans), an endless range stays one entry."""
+    out, j = [], 0
+    while j < len(slots):
+        t = slots[j]
+        m = re.match(r"R:(-?\d+):1$", t)
+        rep = re.match(r"R:(\d+):0$", t)
+        if rep and int(rep.group(1)) > 0 and j + 1 < len(slots):
+            # n x value / n x [array]: the repeated element written out n times
+            span = 1 + (int(slots[j + 1].split(":")[2]) if slots[j + 1].startswith("a:") else 0)
+            out += _written_out(slots[j + 1:j + 1 + span]) * min(int(rep.group(1)), 100000)
+            j += 1 + span
+        elif t.startswith("a:"):
+            out.append((":".join(t.split(":")[:2]), None)); j += 1
+        elif m and j + 2 < len(slots):
+            n, k = int(m.group(1)), slots[j + 1][0]
+            if n <= 0 or n > 100000:
+                out.append((";".join(slots[j:j + 3]), None))
+            elif k in "fd":
+                d, st = _fl_val(slots[j + 1]), _fl_val(slots[j + 2])
+                es = [_fl_round(k, st + _fl_round(k, i * d)) for i in range(n)]
+                big = max(abs(e) for e in es)
+                out += [((k, e), (k, big, i) if _inexact_at(slots, j) else None) for i, e in enumerate(es)]
+            else:
+                d, st = int(slots[j + 1][2:]), int(slots[j + 2][2:])
+                w = 64 if k == "h" else (8 if k == "c" else 32)
+                out += [("%s:%d" % (k, ((st + i * d + 2 ** (w - 1)) % 2 ** w) - 2 ** (w - 1)), None) for i in range(n)]
+            j += 3
+        elif t[:2] in ("f:", "d:") and not re.search(r"[^0-9a-f]", t[2:]):
+            try:
+                out.append(((t[0], _fl_val(t)), None))
+            except (ValueError, OverflowError):
+                out.append((t, None))
+            j += 1
+        else:
+            out.append((t, None)); j += 1
+    return out
+
+def _inexact_bound(mark):
+    """how far element i of an inexact range may be off in the second scan, in units in the last place at
+    the magnitude of the range's largest element: two rounded operations on either side (2 ulp together)
+    and the re-derived step c - b (half an ulp at that magnitude) taken i times.  One ulp flat is too
+    narrow: 0.9d 1.1d ... 1.7d comes back with 1.7000000000000006 for 1.7000000000000002 (2 ulp)."""
+    from fractions import Fraction
+    return (2 + Fraction(mark[2], 2)) * _ulp(mark[0], mark[1])
+
+def _only_inexact_ranges_differ(v, v2):
+    """the second scan differs from the first ONLY as the finding says: written out element by element
+    (the printer compresses again, so the slots themselves differ also where nothing is wrong) both scans
+    have the same elements except inside the inexact float ranges of the first scan, and there each
+    element is off by at most _inexact_bound (a few units in the last place at the magnitude of the
+    range's largest element); at least one element differs."""
+    a, b = _written_out(v), _written_out(v2)
+    if len(a) != len(b):
+        return False
+    differ = 0
+    for (x, mark), (y, _) in zip(a, b):
+        if x == y:
+            continue
+        if mark is None or not isinstance(y, tuple) or y[0] != mark[0]:
+            return False
+        if abs(x[1] - y[1]) > _inexact_bound(mark):
+            return False
+        differ += 1
+    return differ >= 1
+
+def _num(tok):
+    from fractions import Fraction
+    return _fl_val(tok) if tok[:2] in ("f:", "d:") else Fraction(int(tok[2:]))
+
+def _delta_from_array_end(exp, got, p):
+    """the step the scanner wrote for the range at slot p is its first value b minus the last value of the
+    array in front of it (for an array that ends in a range: that range's last element); floats: rounded
+    in the format, integers: modulo the width"""
+    try:
+        b, step = _num(exp[p + 2]), _num(got[p + 1])
+        last = _num(exp[p - 1])
+        if p >= 4 and re.match(r"R:\d+:1$", exp[p - 3]):
+            last = last + (int(exp[p - 3].split(":")[1]) - 1) * _num(exp[p - 2])
+        k = exp[p + 2][0]
+        if k in "fd":
+            x = float(b - last)
+            if k == "f":
+                x = struct.unpack("<f", struct.pack("<f", x))[0]
+            from fractions import Fraction
+            return Fraction(x) == step
+        w = 2 ** (64 if k == "h" else 32)
+        return (b - last - step) % w == 0
+    except (ValueError, IndexError, OverflowError, struct.error):
+        return False
 
 def classify(case, impl, failure):
     # float-range-inexact-step: the scanned values hold a range over floats / doubles on which the
-    # range arithmetic rounds (0.1 0.2 ... 0.5); only the failure kind reprint is classified
+    # range arithmetic rounds (0.1 0.2 ... 0.5); only the failure kind reprint is classified, and only when
+    # the second scan (V2=) differs from the first inside such ranges alone, in the way the finding says
     if failure.startswith("reprint: ") and "=" in impl:
-        if _inexact_float_range(fields(impl).get("V", "-").split(";")):
-            return "float-range-inexact-step"
+        d = fields(impl)
+        v, v2 = d.get("V", "-").split(";"), d.get("V2", "-").split(";")
+        try:
+            if d.get("V2", "-") != "-" and _only_inexact_ranges_differ(v, v2):
+                return "float-range-inexact-step"
+        except (ValueError, IndexError):
+            pass
     """range-after-array: a range "b ... c" directly behind an array whose last slot has b's type.  The
     checker counts it with the unit step, the scanner takes the array's last value for the left neighbour:
     the scanned slots differ from the denotation in that range's count and step ONLY (failure kind
@@ -734,13 +861,9 @@ def classify(case, impl, failure):
                 q += 3
             if (allowed and all(i in allowed for i in diff)
                     and (p - 1) in ends                      # the slot before the range closes an array
-                    and exp[p - 1][:1] == exp[p + 2][:1]):   # ... and has the type of the range's first value
+                    and exp[p - 1][:1] == exp[p + 2][:1]     # ... and has the type of the range's first value
+                    and _delta_from_array_end(exp, got, p)): # ... and the scanned step is b - (array's last value)
                 return "range-after-array"
-    if failure.startswith("reprint"):
-        d = fields(impl)
-        p2 = bytes.fromhex(d["P2"]) if d.get("P2", "-") != "-" else b""
-        if re.search(rb"[0-9]\n    \[", p2):
-            return "linebreak-in-repeated-array"
     return None
 
 TECHNIQUE = ("Coq proofs over the same recogniser models as C10 (token lemmas shared by checker and scanner, "
